@@ -83,7 +83,8 @@ Ev(c, s, e) ==
          \* a completion's unblock chose e.for (delegate attempt on its behalf is about to be made):
          \* it must be the next of the callers still queued, in the order the configuration promises
          IF e.by = e.for \/ c.kind # "queue" THEN s
-         ELSE LET waiting == SelectSeq(s.order, LAMBDA q : s.call[q] = "open")
+         ELSE LET \* still waiting: call open and no token already on its way to it from an earlier hand-off
+                  waiting == SelectSeq(s.order, LAMBDA q : s.call[q] = "open" /\ s.transit[q] = 0)
                   want == IF Len(waiting) = 0 THEN "" ELSE IF c.expect = "fifo" THEN waiting[1] ELSE waiting[Len(waiting)]
               IN IF want # e.for THEN Fail(s, "order", "hand-off chose a caller that is not next in the configured order") ELSE s
     [] e.k = "rel" ->
